@@ -2134,6 +2134,10 @@ class Engine:
             return base[1][ival(idx)]
         if isinstance(idx, tuple) and idx and idx[0] == "sl":
             return ("slice", base, idx[1], idx[2], idx[3])
+        if isinstance(base, tuple) and base[:1] == ("slice",) and base[4] == Lin(c=1) and isinstance(base[2], Lin) \
+                and (isinstance(idx, Lin) or (isinstance(idx, tuple) and idx[:1] == ("sym",))) \
+                and not (isinstance(idx, Lin) and idx.is_const() and idx.c < 0) and not (base[2].is_const() and base[2].c < 0):
+            return ("elem", base[1], base[2] + lin(idx))          # x[a:][i] is x[a + i] (indices counted from the front)
         return ("elem", base, idx)
 
     def _slice_of_slice(self, base, idx):
